@@ -87,8 +87,18 @@ var nfTerms = []any{
 	some(hx.C("nf_const", bytesOf("x"))), some(hx.C("nf_prefix", bytesOf("p."))), some(hx.C("nf_prefix", bytesOf("q"))),
 }
 
-var behs = []string{"BOk", "BErr", "BPanic", "BOkPanic", "BNever", "BTwice", "BOkBad", "BDefer", "BOkDefer", "BDeferPanic"}
+var behs = []string{"BOk", "BErr", "BPanic", "BOkPanic", "BNever", "BTwice", "BOkBad", "BDefer", "BOkDefer", "BDeferPanic", "BPanicWith:4", "BPanicWith:6"}
 var fkinds = []string{"FOk", "FErr", "FBad"}
+
+// behTerm turns a behaviour name into its term ("BPanicWith:4" -> (BPanicWith 4))
+func behTerm(b string) any {
+	if strings.HasPrefix(b, "BPanicWith:") {
+		var k int64
+		fmt.Sscanf(b[len("BPanicWith:"):], "%d", &k)
+		return hx.C("BPanicWith", k)
+	}
+	return b
+}
 
 func mkReg(k int64, zid int, group string, nfTerm any) (hx.T, regd) {
 	nf := nfOfTerm(nfTerm)
@@ -151,7 +161,7 @@ func callSer(k int64, built []regd, ser, route string, data []byte, ctx any, cb 
 			cb = false
 		}
 	}
-	return hx.C("OCallSer", k, ser, bytesOf(route), bytesOf(string(data)), []any{}, ctx, cb, beh)
+	return hx.C("OCallSer", k, ser, bytesOf(route), bytesOf(string(data)), []any{}, ctx, cb, behTerm(beh))
 }
 
 func callDirect(k int64, built []regd, route string, arg any, ctx any, cb bool, beh string, allowF4 bool) hx.T {
@@ -160,7 +170,7 @@ func callDirect(k int64, built []regd, route string, arg any, ctx any, cb bool, 
 			cb = false
 		}
 	}
-	return hx.C("OCall", k, bytesOf(route), arg, ctx, cb, beh)
+	return hx.C("OCall", k, bytesOf(route), arg, ctx, cb, behTerm(beh))
 }
 
 func flipCase(s string, i int) string {
@@ -368,7 +378,7 @@ func genRandom(cfg *hx.Config, idx int) ([]hx.T, []string) {
 		switch p := r.Intn(10); {
 		case p < 5:
 		case p < 8:
-			group = []string{"g", "h", "_"}[r.Intn(3)]
+			group = []string{"g", "h", "_", "chat.room", "a."}[r.Intn(5)]
 		default:
 			group = fmt.Sprintf("grp%d", len(regs))
 		}
@@ -582,7 +592,7 @@ func dispatch(built map[int64][]regd, ks []int64, rid int64, route string, body 
 			rid = 0
 		}
 	}
-	return hx.C("ODispatch", ks, rid, bytesOf(route), bytesOf(string(body)), []any{}, false, hx.C("CTyp", int64(9)), beh)
+	return hx.C("ODispatch", ks, rid, bytesOf(route), bytesOf(string(body)), []any{}, false, hx.C("CTyp", int64(9)), behTerm(beh))
 }
 
 type dispCfg struct {
@@ -1036,7 +1046,7 @@ func enumerateRejections(thorough bool, emit func(string, []hx.T, []string)) {
 		for gi, good := range goods {
 			for mode := 0; mode < 3; mode++ {
 				for oi, order := range orders {
-					if !thorough && !(mode == 0 && oi < 3 && gi < 2) && (bi+gi+mode+oi)%5 != 0 {
+					if !thorough && !(mode == 0 && oi < 2 && gi < 2) && (bi+gi+mode+oi)%7 != 0 {
 						continue
 					}
 					good2 := goods[(gi+1)%len(goods)]
@@ -1181,6 +1191,102 @@ func enumerateOverlap(thorough bool, emit func(string, []hx.T, []string)) {
 					ops = append(ops, fire(m, "FOk"), fire(m, "FErr"), fire(m+1, "FOk"), fire(-1, "FOk"))
 					emit("overlap", ops, []string{fmt.Sprintf("overlap:path-%d", path), fmt.Sprintf("overlap:kept-%d", m)})
 				}
+			}
+		}
+	}
+}
+
+// ---- panic values ----
+// a handler may panic with anything: a string, an error, a runtime error, an error whose Error()
+// itself panics (typed nil in an error), a Stringer whose String() panics, nil, a value that is
+// not comparable...  Whatever it is: the call completes exactly once with an error, nothing escapes.
+func enumeratePanics(thorough bool, emit func(string, []hx.T, []string)) {
+	k := int64(0)
+	opA, rdA := mkReg(k, 0, "g", "None")            // Z01: g.Join request, g.Note notify
+	opR, rdR := mkReg(1, remoteZoo[0], "g", "None") // R01 behind a dispatcher
+	built := []regd{rdA}
+	builtD := map[int64][]regd{1: {rdR}}
+	pre := []hx.T{opA, hx.C("OBuild", k), opR, hx.C("OBuild", int64(1))}
+	for kind := 0; kind < panicKinds+1; kind++ {
+		beh := fmt.Sprintf("BPanicWith:%d", kind)
+		ops := append([]hx.T{}, pre...)
+		for _, cb := range []bool{true, false} {
+			ops = append(ops, callSer(k, built, "SJson", "g.Join", goodPayload("SJson", 10, int64(kind)), "CNil", cb, beh, false))
+			ops = append(ops, callDirect(k, built, "g.Join", hx.C("AVal", int64(10), int64(kind), 0), hx.C("CTyp", int64(1)), cb, beh, false))
+		}
+		ops = append(ops, callSer(k, built, "SJson", "g.Note", goodPayload("SJson", 10, 1), "CNil", false, beh, false))
+		ops = append(ops, dispatch(builtD, []int64{1}, int64(50+kind), "g.Join", helloBody(int64(kind)), beh, false))
+		ops = append(ops, dispatch(builtD, []int64{1}, 0, "g.Join", helloBody(1), beh, false))
+		ops = append(ops, dispatch(builtD, []int64{1}, 0, "g.Note", helloBody(2), beh, false))
+		ops = append(ops, dispatch(builtD, []int64{1}, int64(70+kind), "g.Ret", helloBody(3), beh, false))
+		// the collection and the service still work afterwards
+		ops = append(ops, callSer(k, built, "SJson", "g.Join", goodPayload("SJson", 10, 9), "CNil", true, "BOk", false))
+		ops = append(ops, dispatch(builtD, []int64{1}, 99, "g.Join", helloBody(4), "BOk", false))
+		emit("panics", ops, []string{fmt.Sprintf("panic-value:%d", kind)})
+	}
+}
+
+// ---- names with dots ----
+// group names and (renamed) method names may contain dots and empty segments; a route is
+// group.method only if it has exactly ONE dot (inner group: none), whatever names are registered
+func enumerateDots(thorough bool, emit func(string, []hx.T, []string)) {
+	groups := []string{"chat.room", "a.", ".b", "a..b", ".", "chat.room.x", "chat"}
+	nfs := []any{"None", some(hx.C("nf_const", bytesOf("x.y"))), some(hx.C("nf_prefix", bytesOf("p."))), some(hx.C("nf_const", bytesOf("")))}
+	zids := []int{0, 11, remoteZoo[0]}
+	for zi, zid := range zids {
+		for gi, group := range groups {
+			for ni, nft := range nfs {
+				if !thorough && (zi+gi+ni)%2 == 1 {
+					continue
+				}
+				k := int64(0)
+				op, rd := mkReg(k, zid, group, nft)
+				op2, rd2 := mkReg(k, 1, "", nft) // group derived from the type name through the naming function
+				built := []regd{rd, rd2}
+				ops := []hx.T{op, op2, hx.C("OBuild", k)}
+				seen := map[string]bool{}
+				add := func(rt string) {
+					if seen[rt] {
+						return
+					}
+					seen[rt] = true
+					ops = append(ops, hx.C("OHas", k, bytesOf(rt)), hx.C("OArgT", k, bytesOf(rt)))
+					t := target(built, rt)
+					if t == nil { // what should answer it, were the route accepted
+						for i := range rd.ms {
+							if shapeOK(rd.ms[i]) {
+								t = &rd.ms[i]
+								break
+							}
+						}
+					}
+					ops = append(ops, callSer(k, built, "SJson", rt, goodPayload("SJson", msgTidOf(t), 2), ctxTermFor(t), true, "BOk", false))
+				}
+				for _, r := range []regd{rd, rd2} {
+					g := r.groupName()
+					for i := range r.ms {
+						if len(r.ms[i].ins) < 2 {
+							continue
+						}
+						nm := r.nf.apply(r.ms[i].name)
+						add(g + "." + nm)
+						add(g + "." + r.ms[i].name)
+						add(nm)
+						add(strings.Replace(g, ".", "", 1) + "." + nm)
+						if j := strings.LastIndex(g, "."); j >= 0 {
+							add(g[:j] + "." + g[j+1:] + nm)
+							add(g[j+1:] + "." + nm)
+						}
+					}
+					add(g)
+					add(g + ".")
+				}
+				for _, s := range []string{"", ".", "..", "...", "....", "a.b.c.d.e"} {
+					add(s)
+				}
+				// through a dispatching service as well
+				ops = append(ops, dispatch(map[int64][]regd{k: built}, []int64{k}, 7, rd.groupName()+"."+rd.nf.apply("Join"), helloBody(1), "BOk", false))
+				emit("dots", ops, []string{"dots:group=" + group, "dots:nf-" + nfName(nft)})
 			}
 		}
 	}
